@@ -10,5 +10,5 @@ Check(r) ==
                             IN c = r.c /\ s.k = r.k2 /\ s.nonce = r.nonce2
     [] r.op = "ss_rekey" -> LET s == SSRekey(r.k, r.nonce) IN s.k = r.k2 /\ s.nonce = r.nonce2
 Bad == {i \in 1..Len(Recs) : ~Check(Recs[i])}
-ASSUME PrintT(<<"ORACLE", Len(Recs), Bad>>)
+ASSUME PrintT(<<"ORACLE", Len(Recs), ToJson(SetToSeq(Bad))>>)
 =============================================================================
